@@ -13,8 +13,8 @@ CONSTANTS Lines,         \* catalogue: sequence of line contents (symbol sequenc
           Width(_)       \* bytes per symbol
 
 \* template characters
-TCDollar == 1  TCOpen == 2  TCClose == 3  TC1 == 4  TC2 == 5  TCx == 6  TCDash == 7  TC0 == 8  TCa == 9
-IsCapLetter(c) == c \in {TC1, TC2, TCx, TC0, TCa}
+TCDollar == 1  TCOpen == 2  TCClose == 3  TC1 == 4  TC2 == 5  TCx == 6  TCDash == 7  TC0 == 8  TCa == 9  TCUnd == 10
+IsCapLetter(c) == c \in {TC1, TC2, TCx, TC0, TCa, TCUnd}      \* [0-9A-Za-z_]
 IsDigit(c) == c \in {TC1, TC2, TC0}
 DigitVal(c) == IF c = TC1 THEN 1 ELSE IF c = TC2 THEN 2 ELSE 0
 
